@@ -19,7 +19,10 @@ pub fn prop() -> Prop {
                single: for every generated encoding up to 96 bytes (512 thorough) ALL truncation offsets and ALL \
                single-bit flips are enumerated; raw: arbitrary byte strings; fallback: generated strict JSON texts \
                not starting with a space (numbers of 1-40 digits, strings whose first bytes look like headers, \
-               arrays, objects, literals). Oracle: from_slice and parse_jsonb never panic; every string and key \
+               arrays, objects, literals); strings: every string/key length 1..=140 x every byte position x \
+               three ill-formed byte values, as a value and as a key (enumerated); wide: objects of 15-40 \
+               members with multi-byte keys, every single-bit flip in the header and entry-word area and \
+               every key length rewritten by +-1..3 (enumerated). Oracle: from_slice and parse_jsonb never panic; every string and key \
                of an Ok value is well-formed UTF-8 (checked on the raw bytes); every proper prefix of a valid \
                encoding is Err for both; from_slice(text) equals the reference parser's value. Allocation size \
                is not judged. Non-trivial = mutated input of >= 8 bytes with a valid header type that differs \
@@ -29,6 +32,8 @@ pub fn prop() -> Prop {
             Sub { name: "faults", run: run_faults, replay: |j| replay_with::<Bytes>(j, check_bytes) },
             Sub { name: "single", run: run_single, replay: |j| replay_with::<M>(j, check_single) },
             Sub { name: "raw", run: run_raw, replay: |j| replay_with::<Bytes>(j, check_bytes) },
+            Sub { name: "strings", run: run_strings, replay: |j| replay_with::<Bytes>(j, check_bytes) },
+            Sub { name: "wide", run: run_wide, replay: |j| replay_with::<Bytes>(j, check_bytes) },
             Sub { name: "fallback", run: run_fallback, replay: |j| replay_with::<Bytes>(j, check_fallback) },
         ],
     }
@@ -273,4 +278,98 @@ fn run_fallback(ctx: &mut Ctx) {
 fn unused(_: &dyn Fn() -> Result<(), String>) {
     let _ = guard(|| ());
     let _ = M::Null.to_j();
+}
+
+
+/// one ill-formed byte at every position of strings and keys of every length up to 140
+/// (vectorised or block-wise validation would have its seams here)
+fn run_strings(ctx: &mut Ctx) {
+    let mut k = 0usize;
+    for len in 1usize..=140 {
+        for pos in 0..len {
+            k += 1;
+            if k % ctx.nworkers != ctx.worker || ctx.failure.is_some() {
+                continue;
+            }
+            for bad in [0xFFu8, 0x80, 0xC3] {
+                let s = "a".repeat(len);
+                for as_key in [false, true] {
+                    let m = if as_key {
+                        M::Obj([(s.clone(), M::Num(N::U(1))), ("zz".repeat(70), M::Null)].into_iter().collect())
+                    } else {
+                        M::Arr(vec![M::Str(s.clone()), M::Str("tail".into())])
+                    };
+                    let mut b = m.enc();
+                    // the payload of the first string / key is the first run of `len` 'a's
+                    let at = b.windows(len).position(|w| w.iter().all(|c| *c == b'a')).unwrap();
+                    // 0xC3 is only ill-formed when it is not followed by a continuation byte: it never is here
+                    b[at + pos] = bad;
+                    let case = Bytes(b);
+                    let mut obs = Obs::default();
+                    match guard(|| check_bytes(&case, &mut obs)) {
+                        Ok(Ok(())) => {
+                            obs.nontrivial = true;
+                            ctx.record(|| case.to_j(), &obs)
+                        }
+                        Ok(Err(m)) => ctx.fail("strings", case.to_j(), m),
+                        Err(p) => ctx.fail("strings", case.to_j(), format!("unexpected {}", p.describe())),
+                    }
+                }
+            }
+        }
+    }
+}
+
+/// wide objects with multi-byte keys: every bit flip in the header / entry words, and every
+/// key length moved by a few bytes (so that a boundary lands inside a character)
+fn run_wide(ctx: &mut Ctx) {
+    let mut k = 0usize;
+    for n in [3usize, 15, 16, 17, 31, 32, 33, 40] {
+        let m = M::Obj((0..n).map(|i| (format!("k{i:03}é"), if i % 3 == 0 { M::Str("é".into()) } else { M::Num(N::U(i as u64)) })).collect());
+        let base = m.enc();
+        let area = 4 + 8 * n;
+        let mut cases: Vec<Vec<u8>> = vec![];
+        for i in 0..area {
+            for bit in 0..8 {
+                let mut b = base.clone();
+                b[i] ^= 1 << bit;
+                cases.push(b);
+            }
+        }
+        for key in 0..n {
+            for d in [-3i32, -2, -1, 1, 2, 3] {
+                let mut b = base.clone();
+                let w = 4 + 4 * key;
+                let e = u32::from_be_bytes(b[w..w + 4].try_into().unwrap());
+                let l = (e & 0x0FFF_FFFF) as i32 + d;
+                if l >= 0 {
+                    b[w..w + 4].copy_from_slice(&((e & 0xF000_0000) | l as u32).to_be_bytes());
+                    cases.push(b.clone());
+                    // compensate on the next key so that the key area keeps its total length
+                    if key + 1 < n {
+                        let w2 = w + 4;
+                        let e2 = u32::from_be_bytes(b[w2..w2 + 4].try_into().unwrap());
+                        let l2 = (e2 & 0x0FFF_FFFF) as i32 - d;
+                        if l2 >= 0 {
+                            b[w2..w2 + 4].copy_from_slice(&((e2 & 0xF000_0000) | l2 as u32).to_be_bytes());
+                            cases.push(b);
+                        }
+                    }
+                }
+            }
+        }
+        for b in cases {
+            k += 1;
+            if k % ctx.nworkers != ctx.worker || ctx.failure.is_some() {
+                continue;
+            }
+            let case = Bytes(b);
+            let mut obs = Obs::default();
+            match guard(|| check_bytes(&case, &mut obs)) {
+                Ok(Ok(())) => ctx.record(|| case.to_j(), &obs),
+                Ok(Err(m)) => ctx.fail("wide", case.to_j(), m),
+                Err(p) => ctx.fail("wide", case.to_j(), format!("unexpected {}", p.describe())),
+            }
+        }
+    }
 }
